@@ -1858,7 +1858,8 @@ rrul_fill_Hly(echs_instant_t *restrict tgt, size_t nti, rrulsp_t rr)
 		if (UNLIKELY((nti = rr->count) == 0UL)) {
 			goto fin;
 		}
-	} else if (rr->scale != SCALE_GREGORIAN) {
+	}
+	if (UNLIKELY(rr->scale != SCALE_GREGORIAN)) {
 		/* hourly is only supported on the gregorian scale */
 		goto fin;
 	}
@@ -2038,7 +2039,8 @@ rrul_fill_Mly(echs_instant_t *restrict tgt, size_t nti, rrulsp_t rr)
 		if (UNLIKELY((nti = rr->count) == 0UL)) {
 			goto fin;
 		}
-	} else if (rr->scale != SCALE_GREGORIAN) {
+	}
+	if (UNLIKELY(rr->scale != SCALE_GREGORIAN)) {
 		/* minutely is only supported on the gregorian scale */
 		goto fin;
 	}
@@ -2222,7 +2224,8 @@ rrul_fill_Sly(echs_instant_t *restrict tgt, size_t nti, rrulsp_t rr)
 		if (UNLIKELY((nti = rr->count) == 0UL)) {
 			goto fin;
 		}
-	} else if (rr->scale != SCALE_GREGORIAN) {
+	}
+	if (UNLIKELY(rr->scale != SCALE_GREGORIAN)) {
 		/* secondly is only supported on the gregorian scale */
 		goto fin;
 	}
